@@ -278,7 +278,18 @@ func (p *Parser) StmtsSeq(r io.Reader) iter.Seq2[*Stmt, error] {
 	return func(yield func(*Stmt, error) bool) {
 		p.rune()
 		p.next()
-		p.stmts(yield)
+		stopped := false
+		p.stmts(func(s *Stmt, err error) bool {
+			if !yield(s, err) {
+				stopped = true
+			}
+			return !stopped
+		})
+		if stopped {
+			// The consumer stopped the iteration; calling yield again,
+			// such as with a final error below, would panic.
+			return
+		}
 		if p.err == nil {
 			// EOF immediately after heredoc word so no newline to
 			// trigger the parsing error.
